@@ -1,4 +1,5 @@
 import Driver.Proto
+import Driver.UtilC14
 import Dawgs.Spec.C14
 /-! Monitor for C14 (suite `c14mon`): judges the REAL containers' answers against the naive computation
 on the edge list (spec `A`). Input lines are `<op> => <implementation answer>`.
@@ -10,12 +11,14 @@ that shape, otherwise the class is the generic `<op>-mismatch`. Classes are neve
 check's `known_findings.json` decides which classes are known. -/
 namespace Driver.C14Mon
 open Dawgs.C14
+open Driver.UtilC14
 
 structure St where
   g : G := {}
   tomb : List Nat := []
-  dn : List Nat := []
-  de : List Nat := []
+  /-- projection handles: name ↦ (accumulated deleted nodes, accumulated deleted edges, the argument sets the
+  caller passed when the handle was created). A handle is a VALUE: nothing that happens later may change it. -/
+  handles : List (String × (List Nat × List Nat × List Nat × List Nat)) := [("proj", ([], [], [], []))]
 
 def splitArrow (ts : List String) : List String × List String :=
   (ts.takeWhile (· ≠ "=>"), (ts.dropWhile (· ≠ "=>")).drop 1)
@@ -63,8 +66,12 @@ def canonPairs (xs : List (Nat × Nat)) : List (Nat × Nat) :=
 def St.graphOf (st : St) (c : String) (ignoreTomb : Bool := false) : G :=
   match c with
   | "ts" => if ignoreTomb then st.g else st.g.dropEdges st.tomb
-  | "proj" => ((if ignoreTomb then st.g else st.g.dropEdges st.tomb).dropEdges st.de).dropNodes st.dn
-  | _ => st.g
+  | "am" | "csr" => st.g
+  | h => match st.handles.lookup h with
+    | some (dn, de, _, _) => ((if ignoreTomb then st.g else st.g.dropEdges st.tomb).dropEdges de).dropNodes dn
+    | none => st.g
+
+def St.isHandle (st : St) (c : String) : Bool := (st.handles.lookup c).isSome
 
 /-- adjacency under a defect shape -/
 inductive Shape where
@@ -84,14 +91,13 @@ the first entry is the property itself. -/
 def candidates (st : St) (c : String) (d : Dir) : List (String × G × Shape) :=
   let exact := [("ok", st.graphOf c, Shape.exact)]
   let tombs := !st.tomb.isEmpty
-  match c, d with
-  | "ts", .both => exact ++ [("ts-both-includes-self", st.graphOf c, Shape.tsSelf)]
-  | "proj", .both =>
+  if c == "ts" && d == .both then exact ++ [("ts-both-includes-self", st.graphOf c, Shape.tsSelf)]
+  else if st.isHandle c && d == .both then
     exact ++ [("proj-both-returns-start", st.graphOf c, Shape.projStart)] ++
       (if tombs then [("proj-ignores-tombstone", st.graphOf c true, Shape.exact),
                       ("proj-ignores-tombstone", st.graphOf c true, Shape.projStart)] else [])
-  | "proj", _ => exact ++ (if tombs then [("proj-ignores-tombstone", st.graphOf c true, Shape.exact)] else [])
-  | _, _ => exact
+  else if st.isHandle c then exact ++ (if tombs then [("proj-ignores-tombstone", st.graphOf c true, Shape.exact)] else [])
+  else exact
 
 /-- judge with the first candidate whose prediction `f graph shape` equals `true`. -/
 def classify (cands : List (String × G × Shape)) (ok : G → Shape → Bool) (generic : String) : String :=
@@ -203,7 +209,50 @@ def multiDeg (g : G) (v : Nat) : Dir → Nat
   | .inn => (g.incident v .inn).length
   | .both => (g.incident v .out).length + (g.incident v .inn).length
 
-def step (st : St) (ts : List String) : St × String :=
+/-- the canonical view a handle must have: a function of the graph it denotes, nothing else -/
+def specView (g : G) : String :=
+  let dirOf : String → Dir := fun d => if d == "out" then .out else if d == "in" then .inn else .both
+  viewOf (nodeSet g).length (nodeSet g) g.edges.length (g.edges.map (fun e => (e.id, e.start, e.stop)))
+    (fun v d => canon (g.adj v (dirOf d))) (fun v d => (g.incident v (dirOf d)).map (·.id))
+
+def setHandle {α : Type} (hs : List (String × α)) (name : String) (h : α) : List (String × α) :=
+  (hs.filter (fun p => p.1 != name)) ++ [(name, h)]
+
+/-- `PARENT.Projection(dn, de)`: child = parent's deletions plus the new ones; nothing else changes. -/
+def derive (st : St) (name parent dn de : String) (out : List String) : St × String :=
+  match parseIds dn, parseIds de with
+  | some dn, some de =>
+    let base := if parent == "store" then some ([], [], [], []) else st.handles.lookup parent
+    match base with
+    | some (pn, pe, _, _) =>
+      ({ st with handles := setHandle st.handles name (pn ++ dn, pe ++ de, dn, de) },
+       if out == ["ok"] then "ok" else "reject bad-output proj")
+    | none => (st, "reject bad-op proj parent")
+  | _, _ => (st, "reject bad-op")
+
+/-- the re-observation of every live handle that follows each answer: `H=<view digest>:<argument digest>` -/
+def judgeDigests (st : St) (toks : List String) : String :=
+  let names := sortNames (st.handles.map (·.1))
+  if toks.length != names.length then s!"reject handle-set-mismatch listed={toks.length} live={names.length}"
+  else
+    let bad := (names.zip toks).findSome? (fun (n, tok) =>
+      match st.handles.lookup n, tok.splitOn "=" with
+      | some (_, _, aN, aE), [n', hv] =>
+        match hv.splitOn ":" with
+        | [v, a] =>
+          if n' != n then some s!"reject handle-set-mismatch expected={n} got={n'}"
+          else
+            let argsOk := a == digest (argsOf (canon aN) (canon aE))
+            let argMsg := s!"reject projection-argument-mutated handle={n} the bitmaps passed to Projection no longer hold {natL (canon aN)} / {natL (canon aE)}"
+            if v == digest (specView (st.graphOf n)) then (if argsOk then none else some argMsg)
+            else if !st.tomb.isEmpty && v == digest (specView (st.graphOf n true)) then
+              (if argsOk then some s!"reject proj-ignores-tombstone handle={n}" else some argMsg)
+            else some s!"reject handle-view-changed handle={n} its view is no longer the store minus its own deletions{if argsOk then "" else " AND the bitmaps passed to Projection were mutated"} (use `snap {n}` for the full view)"
+        | _ => some "reject bad-output digest"
+      | _, _ => some "reject bad-output digest")
+    bad.getD "ok"
+
+def step0 (st : St) (ts : List String) : St × String :=
   let (op, out) := splitArrow ts
   match op with
   | ["graph"] => ({}, if out == ["ok"] then "ok" else "reject bad-output graph")
@@ -217,12 +266,16 @@ def step (st : St) (ts : List String) : St × String :=
   | ["tsdel", id] => match id.toNat? with
       | some id => ({ st with tomb := id :: st.tomb }, if out == ["ok"] then "ok" else "reject bad-output tsdel")
       | none => (st, "reject bad-op")
-  | ["proj", dn, de] => match parseIds dn, parseIds de with
-      | some dn, some de => ({ st with dn := dn, de := de }, if out == ["ok"] then "ok" else "reject bad-output proj")
-      | _, _ => (st, "reject bad-op")
-  | ["proj2", dn, de] => match parseIds dn, parseIds de with
-      | some dn, some de => ({ st with dn := st.dn ++ dn, de := st.de ++ de }, if out == ["ok"] then "ok" else "reject bad-output proj2")
-      | _, _ => (st, "reject bad-op")
+  | ["proj", dn, de] => derive st "proj" "store" dn de out
+  | ["proj2", dn, de] => derive st "proj" "proj" dn de out
+  | ["proj", name, parent, dn, de] => derive st name parent dn de out
+  | ["snap", name] => match st.handles.lookup name, out with
+      | some (_, _, aN, aE), [txt] =>
+        let want (ig : Bool) := specView (st.graphOf name ig) ++ ";" ++ argsOf (canon aN) (canon aE)
+        if txt == want false then (st, "ok")
+        else if !st.tomb.isEmpty && txt == want true then (st, s!"reject proj-ignores-tombstone snap {name}")
+        else (st, s!"reject handle-view-mismatch {name} snap want={want false}")
+      | _, _ => (st, "reject bad-output snap")
   | ["nodes", c] => match out with
       | [n, l] => match (field n "n").bind String.toNat?, parseList l with
         | some n, some l =>
@@ -282,7 +335,7 @@ def step (st : St) (ts : List String) : St × String :=
       | _, _ => (st, "reject bad-output seg")
   | ["toseg", ns, es] => match parseIds ns, parseIds es, out with
       -- a well-formed serialized path (k+1 nodes, k edges) must come back as a chain with exactly those nodes and edges
-      | some ns, some es, ["panic"] => (st, s!"reject toseg-index-panic nodes={natList ns} edges={natList es}")
+      | some ns, some es, ["index-panic"] => (st, s!"reject toseg-index-panic nodes={natList ns} edges={natList es}")
       | some ns, some es, [gn, ge] =>
         if ns.length != es.length + 1 then (st, "ok")
         else match (field gn "nodes").bind parseList, (field ge "edges").bind parseList with
@@ -300,12 +353,12 @@ def step (st : St) (ts : List String) : St × String :=
           let g := st.graphOf c
           -- the triple store and its projections hold a multigraph (every triple counts); the adjacency map and the
           -- CSR digraph can only count distinct (start, end) pairs
-          let want := if c == "ts" || c == "proj" then g.edges.length else g.pairs.length
+          let want := if c == "ts" || st.isHandle c then g.edges.length else g.pairs.length
           if n == want then (st, "ok")
           else if c == "am" && n == (nodeSet g).length then (st, s!"reject am-numedges-returns-node-count got={n} want={want}")
           else if c == "ts" && !st.tomb.isEmpty && n == (st.graphOf c true).edges.length then
             (st, s!"reject ts-numedges-ignores-tombstone got={n} want={want}")
-          else if c == "proj" && !st.tomb.isEmpty && n == (st.graphOf c true).edges.length then
+          else if st.isHandle c && !st.tomb.isEmpty && n == (st.graphOf c true).edges.length then
             (st, s!"reject proj-ignores-tombstone numedges got={n} want={want}")
           else (st, s!"reject numedges-mismatch {c} got={n} want={want}")
         | none => (st, "reject bad-output numedges")
@@ -321,7 +374,7 @@ def step (st : St) (ts : List String) : St × String :=
             -- neighbours and the number of incident edges is accepted; the set-valued containers must be exact
             n == ns.length && setMax ≤ m && m ≤ multiMax && (!(c == "am" || c == "ts") || m == setMax)
           if judge (st.graphOf c) then (st, "ok")
-          else if c == "proj" && !st.tomb.isEmpty && judge (st.graphOf c true) then (st, s!"reject proj-ignores-tombstone dims got={n},{m}")
+          else if st.isHandle c && !st.tomb.isEmpty && judge (st.graphOf c true) then (st, s!"reject proj-ignores-tombstone dims got={n},{m}")
           else (st, s!"reject dims-mismatch {c} got={n},{m}")
         | _, _ => (st, "reject bad-output dims")
       | _, _ => (st, "reject bad-output dims")
@@ -336,6 +389,13 @@ def step (st : St) (ts : List String) : St × String :=
         else (st, s!"reject readeach-mismatch {w} {r} got={segs}")
       | _, _, _ => (st, "reject bad-output zone")
   | _ => (st, "reject bad-op " ++ " ".intercalate op)
+
+/-- judge the answer proper, then the re-observation of all live handles that follows `##` -/
+def step (st : St) (ts : List String) : St × String :=
+  let main := ts.takeWhile (· ≠ "##")
+  let dig := (ts.dropWhile (· ≠ "##")).drop 1
+  let (st', r) := step0 st main
+  if r != "ok" || !(ts.contains "##") then (st', r) else (st', judgeDigests st' dig)
 
 def suite : Suite := { σ := St, init := {}, step := step }
 end Driver.C14Mon
